@@ -38,6 +38,9 @@ pub fn run(cfg: &RunCfg) -> Ctx {
     all.merge(par_cases(&c, "concurrent", cfg.n(400, 15_000), || (), |_, rng, ctx, _| concurrent(rng, ctx)));
     all.merge(par_cases(&c, "race", cfg.n(60, 1500), || (), |_, rng, ctx, _| race_case(rng, ctx)));
     all.floor("race.histories", 20);
+    all.merge(par_cases(&c, "race2", cfg.n(120, 3000), || (), |_, rng, ctx, _| race2_case(rng, ctx)));
+    all.floor("race2.histories", 40);
+    all.floor("race2.with_clear", 10);
     for k in ["seq.check_found", "seq.check_not_found", "seq.watch_not_found", "seq.watch_items", "seq.stream_ended_by_clear", "seq.coalesced_updates", "seq.redundant_set_then_change", "seq.set_then_clear_unpolled", "conc.histories_linearizable", "conc.watch_items"] {
         all.floor(k, 5);
     }
@@ -594,6 +597,134 @@ fn race_case(rng: &mut Rng, ctx: &mut Ctx) {
             }
             ctx.distinct("race_outcomes", &format!("{:?}|{}|{:?}", got, ended, fin));
             ctx.fingerprint(format!("race|k{}|{}", k.min(131) / 4, with_clear as u8), true);
+        }
+    }
+}
+
+#[derive(Clone, Copy, Debug, PartialEq)]
+enum ROp {
+    Set(i32),
+    Clear,
+}
+
+/// Sequential model of two reporter operations applied in the given order to a service registered
+/// with `s0` and watched since before both: (final Check result, watcher's stream ended, statuses
+/// the watched registration held in order).
+fn race_model(s0: i32, order: [ROp; 2]) -> (Option<i32>, bool, Vec<i32>) {
+    let mut registered = Some(s0);
+    let mut alive = true;
+    let mut held = vec![s0];
+    for op in order {
+        match op {
+            ROp::Set(v) => {
+                if registered.is_some() {
+                    if alive {
+                        held.push(v);
+                    }
+                } else {
+                    // a fresh registration the old watcher does not belong to
+                }
+                registered = Some(v);
+            }
+            ROp::Clear => {
+                registered = None;
+                alive = false;
+            }
+        }
+    }
+    (registered, !alive, held)
+}
+
+/// A registered, watched service; two reporter clones run one operation each (set or clear) and
+/// the first is made to yield inside the reporter.  The observation must equal one of the two
+/// sequential orders.
+fn race2_case(rng: &mut Rng, ctx: &mut Ctx) {
+    let k = if rng.chance(3, 4) { rng.urange(120, 131) } else { rng.urange(0, 135) };
+    let k2 = rng.urange(0, 3);
+    let s0 = wire(st_of(rng.u64()));
+    let mut mk = |rng: &mut Rng| if rng.chance(2, 5) { ROp::Clear } else { ROp::Set(wire(st_of(rng.u64()))) };
+    let a = mk(rng);
+    let b = mk(rng);
+    ctx.begin("race2", json!({"budget_burned_by_A": k, "initial": s0, "A": format!("{:?}", a), "B": format!("{:?}", b)}));
+    let rt = tokio::runtime::Builder::new_current_thread().enable_all().start_paused(true).build().expect("verif-harness-bug: rt");
+    let (reporter, server) = tonic_health::server::health_reporter();
+    let seed = rng.u64();
+    let to_status = |w: i32| match w {
+        0 => ServingStatus::Unknown,
+        1 => ServingStatus::Serving,
+        _ => ServingStatus::NotServing,
+    };
+    let out: Result<(Vec<i32>, bool, Option<i32>), String> = rt.block_on(async move {
+        reporter.set_service_status("r", to_status(s0)).await;
+        let mut client = HealthClient::new(Loopback::new(server.clone(), seed, 1 << 20));
+        let mut st = client.watch(HealthCheckRequest { service: "r".into() }).await.map_err(|e| format!("watch on a registered service failed: {}", e))?.into_inner();
+        let first = match st.message().await {
+            Ok(Some(m)) => m.status,
+            other => return Err(format!("no first item: {:?}", other.map(|o| o.map(|m| m.status)))),
+        };
+        let mut got = vec![first];
+        let run = |mut r: tonic_health::server::HealthReporter, burn: usize, op: ROp| async move {
+            burn_budget(burn).await;
+            match op {
+                ROp::Set(v) => r.set_service_status("r", to_status(v)).await,
+                ROp::Clear => r.clear_service_status("r").await,
+            }
+        };
+        let ta = tokio::spawn(run(reporter.clone(), k, a));
+        let tb = tokio::spawn(run(reporter.clone(), k2, b));
+        let _ = ta.await;
+        let _ = tb.await;
+        let mut ended = false;
+        loop {
+            match tokio::time::timeout(std::time::Duration::from_millis(200), st.message()).await {
+                Ok(Ok(Some(m))) => got.push(m.status),
+                Ok(_) => {
+                    ended = true;
+                    break;
+                }
+                Err(_) => break,
+            }
+        }
+        let fin = client.check(HealthCheckRequest { service: "r".into() }).await.ok().map(|r| r.get_ref().status);
+        Ok((got, ended, fin))
+    });
+    drop(rt);
+    match out {
+        Err(e) => ctx.violation("race2-setup", e),
+        Ok((got, ended, fin)) => {
+            ctx.count("race2.histories");
+            let mut matched = None;
+            for (name, order) in [("A;B", [a, b]), ("B;A", [b, a])] {
+                let (mfin, mended, held) = race_model(s0, order);
+                // reports are a subsequence of what the watched registration held, ending on its last status
+                let mut j = 0;
+                let sub = got.iter().all(|g| {
+                    while j < held.len() && held[j] != *g {
+                        j += 1;
+                    }
+                    if j < held.len() {
+                        // stay on j: consecutive equal statuses may be reported once or twice
+                        true
+                    } else {
+                        false
+                    }
+                });
+                if mfin == fin && mended == ended && sub && got.last() == held.last() {
+                    matched = Some(name);
+                    break;
+                }
+            }
+            match matched {
+                Some(name) => {
+                    ctx.distinct("race2_orders", name);
+                    ctx.count(if a == ROp::Clear || b == ROp::Clear { "race2.with_clear" } else { "race2.sets_only" });
+                }
+                None => ctx.violation(
+                    "not-sequentially-explainable",
+                    format!("initial {}, A = {:?} (yielding after {} budget units), B = {:?}: watcher reported {:?}, stream ended: {}, Check afterwards: {:?}; neither A;B {:?} nor B;A {:?} explains this", s0, a, k, b, got, ended, fin, race_model(s0, [a, b]), race_model(s0, [b, a])),
+                ),
+            }
+            ctx.fingerprint(format!("race2|{:?}|{:?}|k{}", matches!(a, ROp::Clear), matches!(b, ROp::Clear), k.min(131) / 4), true);
         }
     }
 }
